@@ -32,6 +32,7 @@ BUNDLES = {
     "freeze": [suites.freeze_suite],
     "lowlevel": [suites.lowlevel_suite],
     "multi": [suites.multi_suite],
+    "wrap": [suites.wrap_suite],
 }
 
 
@@ -42,12 +43,14 @@ def facts_of(events):
          "profile": r["profile"], "nthreads": r["threads"], "pnext": r.get("pnext", 0),
          "suite": (r.get("tag") or {}).get("suite", "") if isinstance(r.get("tag"), dict) else "",
          "ops": [], "hang": False, "abort": False, "panic": False, "mem_built": None, "mem_end": None,
-         "overlap": False, "steps": 0, "skip": False, "idx": r.get("idx", -1), "consuming": r["consuming"]}
+         "overlap": False, "steps": 0, "skip": False, "idx": r.get("idx", -1), "consuming": r["consuming"], "maxn": 0}
     ops = set()
     for e in events:
         k = e["e"]
         if k == "Call":
             ops.add(e["op"])
+            if isinstance(e.get("n"), int):
+                f["maxn"] = max(f["maxn"], e["n"])
         elif k == "Mem":
             if e["at"] == "built":
                 f["mem_built"] = e["live"]
@@ -285,7 +288,7 @@ PLANS = {
                 inv=["Inv_C06", "Inv_C01", "Inv_C02", "Inv_C04"], bundles=["core"],
                 extra_flags={"skip": ["NoDup", "Index", "Value", "ThreadOrder", "RealTime"]}),
     "C07": dict(e1=["ticket_pulls", "ticket_skip", "ticket_comp", "ticket_3t", "ticket_owner"],
-                inv=["Inv_C07_NoRace", "Inv_C07_Mutex"], bundles=["core"], hb=True, revive=True,
+                inv=["Inv_C07_NoRace", "Inv_C07_Mutex"], bundles=["core", "wrap"], hb=True, revive=True,
                 only=lambda f: f["fam"] == "ticket"),
     "C08": dict(e1=["counter_own_vec", "counter_own_arr", "counter_owner"], inv=["Inv_C08", "Inv_OwnEnd"], bundles=["core", "panic"], only=lambda f: f["consuming"]),
     "C09": dict(e1=["counter_pulls", "counter_skipq", "counter_comp", "counter_3t", "ticket_pulls", "ticket_skip", "ticket_comp", "ticket_3t", "ticket_query"],
